@@ -18,7 +18,7 @@ EXPLANATION = (
     "Context-receiving callee answered an error ends in a Pending return. Liveness in general and arithmetic that needs "
     "relational invariants (table classes inv / rb) are not decided beyond the stated reasons."
     " C06-a also explores HeaderPrefix::get/new with the literal table size every reachable caller passes and demands a guard (constant operands, dominating tests or interval arithmetic over the operand expression) for each site still reached, and checks the sibling agreement behind the audited `expect` of AcceptRecvStream::into_stream: every stream type for which it reads `id` is one for which poll_type answers Ready(Ok) only with `id` set.")
-RULES = "C06-a panic-site audit (A14/A1/A9 guards incl. interval arithmetic + audited table; get/new explored with the table size every reachable caller passes; sibling agreement into_stream/poll_type); C06-b Pending implies registered (A7); C06-c errors are not turned into Pending (A3); premise of the audited expects in poll_accept_recv (filter on is_some); shared through a proxy: C07-b (FrameStream::try_recv) under C06-c"
+RULES = "C06-a panic-site audit (A14/A1/A9 guards incl. interval arithmetic + audited table; get/new explored with the table size every reachable caller passes; sibling agreement into_stream/poll_type); C06-b Pending implies registered (A7); C06-c errors are not turned into Pending (A3); premise of the audited expects in poll_accept_recv (filter on is_some); premises of the audited chunk-list arithmetic: take_chunk removes an emptied front chunk, Cursor::advance indexes the list only while count > 0; shared through a proxy: C07-b (FrameStream::try_recv) under C06-c"
 
 HERE = os.path.dirname(os.path.dirname(os.path.abspath(__file__)))
 ENTRY = [r'^h3::server::(connection::Connection|request::RequestResolver|request::ResolvedRequest|stream::RequestStream|builder::Builder)::[a-z_]+$',
@@ -153,6 +153,66 @@ def run(ctx):
         ctx.check(okf or not open_, "C06-a", par.key, "slots are unwrapped only behind `.filter(|s| s.is_some())`",
                   "poll_accept_recv unwraps the slots of pending_recv_streams (%d expect/unwrap) but no longer iterates through a filter on is_some(): a slot "
                   "emptied earlier (a uni stream that ended or was reset before its type arrived) makes the next poll panic" % len(exp_), "")
+
+    # premises of the audited chunk-list entries (`inv`: indices are valid while remaining() > 0):
+    # (1) the receive buffer never keeps an EMPTY chunk at its front: take_chunk, the only place that shortens a chunk, looks at what is
+    #     left of the front chunk after cutting it and removes it when nothing is (or cuts strictly less than the chunk holds)
+    tk = ru.need(ctx, "C06-a", "h3::buf::BufList::take_chunk")
+    if tk:
+        ncut = 0
+        for p in [p for p in ru.all_paths(ctx, "C06-a", tk, max_visits=1) if p.end == "return"]:
+            direct = [i for i, e in enumerate(p.events) if e[0] == "call" and e[2].cname == "split_to"]
+            viacl = [ck for ck, st, _ in p.adapter_closures() if st != "no" and any(True for c_ in prog.by_key.get(ck, []) for _ in c_.calls("split_to"))]
+            if not direct and not viacl:
+                continue
+            if any(t[3][0] == "discr" and t[2] == "None" and (pa.head_call(t[3])[0] or "").endswith(("::front", "::front_mut")) for t in p.tests):
+                continue        # the list was empty: nothing was cut
+            ncut += 1
+            start = direct[0] if direct else 0
+            after = [p.tests[e[2]] for e in p.events[start:] if e[0] == "test"]
+            emp = [t for t in after if (lambda nf: nf is not None and nf[0][0] == "call" and pa.short(nf[0][1]) in ("remaining", "len") and
+                                        expr.fold(nf[2], prog.consts) == 0 and nf[1] in ("==", "!=", ">"))(expr.cmp_nf(t[3], t[2]))]
+            if emp:
+                nf = expr.cmp_nf(emp[-1][3], emp[-1][2])
+                ok = (nf[1] != "==") or p.has_call("pop_front")
+                why = "finds the front chunk empty after the cut and does not remove it"
+            else:
+                ok = False
+                if direct:
+                    e = p.events[direct[0]]
+                    amount, buf_ = (e[3] + (None, None))[1], e[3][0]
+                    for t in [p.tests[x[2]] for x in p.events[:direct[0]] if x[0] == "test"]:
+                        nf = expr.orient(expr.cmp_nf(t[3], t[2]), lambda v: v[0] == "call" and pa.short(v[1]) in ("remaining", "len") and v[2] and v[2][0] == buf_)
+                        if nf and nf[1] == ">" and nf[2] == amount:
+                            ok = True
+                why = "cuts the front chunk without looking at what is left of it"
+            ctx.check(ok, "C06-a", tk.key, "an emptied front chunk is removed (premise of the audited chunk-list arithmetic)",
+                      "take_chunk %s: a chunk taken in full leaves an empty buffer at the head of the list, and the next poll_next / poll_data "
+                      "indexes `chunk()[0]` of it or waits for data that is already there (panic / hang on a DATA payload that ends exactly on a "
+                      "chunk boundary)" % why, "", None, p.describe())
+        ctx.floor("C06-a", "cutting paths of take_chunk", ncut, 1)
+    # (2) the look-ahead cursor indexes the chunk list only while it still has bytes to skip: every `bufs[index]` in Cursor::advance is
+    #     preceded, in its own step, by a test that the count is not zero (advance(0) at the very end of the buffered data has no chunk)
+    cadv = ru.need(ctx, "C06-a", "<h3::buf::Cursor as bytes::buf::buf_impl::Buf>::advance")
+    if cadv:
+        nix = 0
+        for p in ru.all_paths(ctx, "C06-a", cadv, max_visits=2):
+            last = 0
+            for i, e in enumerate(p.events):
+                if e[0] == "call" and e[2].cname in ("index", "index_mut") and e[3] and "bufs" in pa.vfmt(e[3][0]):
+                    nix += 1
+                    seg = [p.tests[x[2]] for x in p.events[last:i] if x[0] == "test"]
+                    ok = False
+                    for t in seg:
+                        nf = expr.cmp_nf(t[3], t[2])
+                        if nf and nf[1] in (">", "!=") and expr.fold(nf[2], prog.consts) == 0 and expr.mentions(nf[0], lambda v: v == ("param", 2, ())):
+                            ok = True
+                    ctx.check(ok, "C06-a", cadv.key, "the chunk list is indexed only while the count is not zero (premise of the audited cursor arithmetic)",
+                              "Cursor::advance reaches `bufs[index]` in a step that did not establish count > 0: advance(0) when every buffered chunk has "
+                              "been passed (a zero-length unknown or reserved frame that ends a chunk) indexes past the end of the list and panics",
+                              "", None, p.describe())
+                    last = i + 1
+        ctx.floor("C06-a", "chunk-list index steps of Cursor::advance", nix, 2)
 
     # ------------------------------------------------------------------ C06-b
     wa = wake.WakeAnalysis(prog)
